@@ -37,6 +37,7 @@ let () =
   Extra.add (fun line -> Cmd_hist.handle !the_cfg line);
   Extra.add (fun line -> Cmd_pool.handle !the_cfg line);
   Extra.add (fun line -> Cmd_coll.handle !the_cfg line);
+  Extra.add (fun line -> Cmd_sb.handle !the_cfg line);
   try
     while true do
       let line = input_line stdin in
